@@ -2,9 +2,10 @@
 
 R1 taint: no value derived from the header's string fields reaches a stdio output call
    except through the sanitising wrappers;
-R2 the sanitiser: safe_output maps every byte of the string it prints into 0x20..0x7e
-   (byte-map loop evaluated over all 256 byte values), prints the pointer it sanitised,
-   and the wrappers hand it exactly the vasprintf result;
+R2 the sanitiser: inside safe_printf / safe_fprintf (private helpers of src/safe.c are folded in by the
+   normalised view) every output call prints, with "%s", a buffer that was filled by a formatting call from
+   the wrapper's own format and arguments and then walked to its NUL by a loop that maps every byte into
+   0x20..0x7e (byte-map loop evaluated over all 256 byte values), with nothing writing it in between;
 R3 every format string at an output call is a literal made of printable ASCII, LF, CR, TAB.
 """
 from ..context import Context
@@ -21,7 +22,7 @@ SOURCE_ARRAYS = [(HDR, "compress_method")]
 SINKS = {"printf": 0, "fprintf": 1, "puts": None, "fputs": None, "putchar": None, "fputc": None, "putc": None, "fwrite": None,
          "vprintf": 0, "vfprintf": 1, "perror": None, "dprintf": 1, "write": None, "putchar_unlocked": None, "fputs_unlocked": None,
          "fwrite_unlocked": None, "_IO_putc": None}
-SANITISERS = {"safe_printf", "safe_fprintf", "safe_output"}
+SANITISERS = {"safe_printf", "safe_fprintf"}
 ALLOWED = set(range(0x20, 0x7f)) | {0x0a, 0x0d, 0x09}
 
 
@@ -77,63 +78,92 @@ def run(tier, seed):
             rep.broken(rid1b, "taint engine sees only %d tainted wrapper calls (expected >= 8): sources or propagation broken" % san_calls)
 
         # ---- R2 ----------------------------------------------------------------------------------------------------
-        rid = rep.rule("R2", "safe_output rewrites every byte of its string into 0x20-0x7e before printing that same string", 5)
-        so = rep.need(rid, mod.fn("safe_output"), "function safe_output")
-        if so:
-            F = ctx.facts(so)
-            M = Matcher(so)
-            loops = find_byte_loops(so, F)
-            sinks = [c for c in so.insts() if c.op == "call" and mod.callee_cname(c) in SINKS]
-            rep.check(rid, len(loops) == 1, "one byte loop in safe_output", so.file, "%d" % len(loops), function=so.cname, obj="loops")
-            rep.check(rid, len(sinks) == 1, "one output call in safe_output", so.file, "%d" % len(sinks), function=so.cname, obj="sinks")
-            for bl in loops:
-                rep.check(rid, bl.kind == "ptr" and M.strip(bl.init, ("bitcast",)) == ("v", so.params[1].id) and bl.step_ok,
-                          "the loop walks the string parameter from its first byte, one byte at a time", so.file, None, function=so.cname, obj="walk")
-                rep.check(rid, bl.exit == "nul" and bl.unvisited_ok, "the loop stops only at the terminating NUL", so.file, "exit=%s" % bl.exit, function=so.cname, obj="exit")
-                good = bl.final_values <= set(range(0x20, 0x7f)) and bl.covered >= set(range(1, 256))
-                rep.check(rid, good, "every visited byte ends in 0x20-0x7e", so.file,
-                          "paths: %s" % bl.path_detail, function=so.cname, obj="range")
-                rep.sample({"loop": "safe_output", "paths": bl.path_detail, "final_values": _ranges(bl.final_values)})
-                for c in sinks:
-                    fi = SINKS[mod.callee_cname(c)]
-                    fmt = mod.const_string(M.strip(c.ops[fi], ("bitcast",))) if fi is not None else None
-                    args = [a for k, a in enumerate(c.ops) if k > (fi if fi is not None else -1)]
-                    okp = fmt == b"%s" and len(args) == 1 and M.strip(args[0], ("bitcast",)) == ("v", so.params[1].id)
-                    rep.check(rid, okp, "the string printed is the pointer that was sanitised, with format \"%s\"", c.where(), "format %r" % fmt, function=so.cname, obj="printed")
-                    hdr = bl.loop["header"]
-                    rep.check(rid, so.dominates(hdr, c.block.id) and c.block.id not in bl.loop["body"], "printing happens after the loop", c.where(), None,
-                              function=so.cname, obj="order")
-        rid = rep.rule("R2b", "safe_printf / safe_fprintf pass exactly the vasprintf result to safe_output and print nothing themselves", 4)
-        for w in ("safe_printf", "safe_fprintf"):
+        rid = rep.rule("R2", "inside the sanitising wrappers every output call prints, with \"%s\", the buffer that was formatted from the wrapper's own format and then "
+                             "rewritten byte by byte into 0x20-0x7e up to its NUL, with nothing writing it in between", 6)
+        FORMATTERS = {"lha_arch_vasprintf": (0, 1, "slot"), "vasprintf": (0, 1, "slot"), "vsnprintf": (0, 2, "buf"), "vsprintf": (0, 1, "buf")}
+        nw = 0
+        for w, fi in (("safe_printf", 0), ("safe_fprintf", 1)):
             fn = rep.need(rid, mod.fn(w), "function " + w)
             if not fn:
                 continue
-            M = Matcher(fn)
-            va = list(fn.calls("lha_arch_vasprintf"))
-            outs = list(fn.calls("safe_output"))
-            direct = [c for c in fn.insts() if c.op == "call" and mod.callee_cname(c) in SINKS]
-            rep.check(rid, not direct, "%s has no direct output call" % w, fn.file, None, function=w, obj="direct")
-            ok = len(va) == 1 and len(outs) == 1
-            if ok:
-                r = root(fn, va[0].ops[0])
-                ok = r[0] == "alloca" and M.match(("load", ("inst", r[1])), outs[0].ops[1], {}) is not None
-                # the format handed to vasprintf is this wrapper's format parameter
-                fi = 0 if w == "safe_printf" else 1
-                ok = ok and M.strip(va[0].ops[1], ("bitcast",)) == ("v", fn.params[fi].id)
-                ok = ok and (fn.dominates(va[0].block.id, outs[0].block.id))
-            rep.check(rid, ok, "%s: safe_output(stream, str) with str the buffer produced by lha_arch_vasprintf(&str, format, args)" % w, fn.file, None, function=w, obj="wiring")
-        av = mod.fn("lha_arch_vasprintf")
-        if av:
-            M = Matcher(av)
-            c = list(av.calls("vasprintf"))
-            rep.check(rid, len(c) == 1 and all(M.match(("param", k), c[0].ops[k], {}) is not None for k in range(3)), "lha_arch_vasprintf forwards to vasprintf", av.file, None,
-                      function=av.cname, obj="forward")
-        # every other stdio sink of src/safe.c: none
+            F, M = ctx.facts(fn), Matcher(fn)
+            loops = find_byte_loops(fn, F)
+            sinks = [c for c in fn.insts() if c.op == "call" and mod.callee_cname(c) in SINKS]
+            rep.check(rid, len(sinks) >= 1, "%s prints through at least one output call" % w, fn.file, None, function=w, obj="sinks")
+            for c in sinks:
+                nw += 1
+                cn = mod.callee_cname(c)
+                sfi = SINKS[cn]
+                fmt = mod.const_string(M.strip(c.ops[sfi], ("bitcast",))) if sfi is not None else None
+                args = [a for k, a in enumerate(c.ops) if k > (sfi if sfi is not None else -1)]
+                if fmt != b"%s" or len(args) != 1:
+                    rep.violation(rid, "%s: output call %s prints one string with format \"%%s\"" % (w, cn), c.where(), "format %r, %d arguments" % (fmt, len(args)), function=w, obj="format")
+                    continue
+                P = M.strip(args[0], ("bitcast",))
+                # (a) a scrub loop over exactly this string
+                good = None
+                why = "no byte loop walks the printed string"
+                for bl in loops:
+                    b0 = M.strip(bl.init, ("bitcast",))
+                    same = b0 == P or M.equiv(b0, P) or (M.match(("gep", ("bind", "x"), [0, 0]), bl.init, {}) or {}).get("x") == (M.match(("gep", ("bind", "x"), [0, 0]), args[0], {}) or {"x": None}).get("x")
+                    if not (bl.kind == "ptr" and same):
+                        continue
+                    if not (bl.step_ok and bl.exit == "nul" and bl.unvisited_ok):
+                        why = "the loop over the printed string does not run byte by byte up to the terminating NUL (exit=%s)" % bl.exit
+                        continue
+                    if not (bl.final_values <= set(range(0x20, 0x7f)) and bl.covered >= set(range(1, 256))):
+                        why = "the loop leaves bytes outside 0x20-0x7e: %s" % _ranges(bl.final_values - set(range(0x20, 0x7f)))
+                        continue
+                    hdr = bl.loop["header"]
+                    if not (fn.dominates(hdr, c.block.id) and c.block.id not in bl.loop["body"]):
+                        why = "the output call is not after the loop"
+                        continue
+                    # (b) nothing between the loop and the call writes memory
+                    between = set()
+                    work = [t for (b_, t) in bl.loop["exits"]]
+                    while work:
+                        x = work.pop()
+                        if x in between or x in bl.loop["body"]:
+                            continue
+                        between.add(x)
+                        if x != c.block.id:
+                            work.extend(fn.blocks[x].succs)
+                    dirty = [i for x in between for i in fn.blocks[x].insts if (i.op == "store" or (i.op == "call" and not (i.callee or "").startswith("llvm.") and i is not c))
+                             and (x != c.block.id or i.idx < c.idx) and fn.dominates(x, c.block.id)]
+                    if dirty:
+                        why = "something may write the string between the loop and the output call: %s" % dirty[0].where()
+                        continue
+                    good = bl
+                    break
+                rep.check(rid, good is not None, "%s: %s prints the string that was sanitised" % (w, cn), c.where(), why if good is None else "byte loop at bb%d: %s" % (good.loop["header"], good.path_detail),
+                          function=w, obj="printed")
+                if good is not None:
+                    rep.sample({"wrapper": w, "paths": good.path_detail, "final_values": _ranges(good.final_values)})
+                # (c) the string is what a formatting call produced from the wrapper's own format
+                src_ok, swhy = False, "the printed string is not the output of a formatting call on this wrapper's format"
+                for fc in fn.insts():
+                    if fc.op != "call" or mod.callee_cname(fc) not in FORMATTERS:
+                        continue
+                    di, ffi, kind = FORMATTERS[mod.callee_cname(fc)]
+                    if M.strip(fc.ops[ffi], ("bitcast",)) != ("v", fn.params[fi].id):
+                        continue
+                    dst = M.strip(fc.ops[di], ("bitcast",))
+                    if kind == "slot":
+                        dd = fn.defn(P)
+                        hit = dd is not None and not dd.is_param and dd.op == "load" and M.strip(dd.ops[0], ("bitcast",)) == dst
+                    else:
+                        hit = dst == P or root(fn, fc.ops[di])[:2] == root(fn, args[0])[:2]
+                    if hit and fn.dominates(fc.block.id, c.block.id):
+                        src_ok = True
+                rep.check(rid, src_ok, "%s: the string printed is the text formatted from the wrapper's format argument" % w, c.where(), None if src_ok else swhy, function=w, obj="formatted")
+        if nw == 0:
+            rep.broken(rid, "no output call found inside safe_printf / safe_fprintf")
+        # no other function of src/safe.c prints
         for fn in mod.defined():
-            if fn.file.endswith("safe.c") and fn.cname != "safe_output":
+            if fn.file.endswith("safe.c") and fn.cname not in ("safe_printf", "safe_fprintf"):
                 for c in fn.insts():
                     if c.op == "call" and mod.callee_cname(c) in SINKS:
-                        rep.violation(rid, "output call in safe.c outside safe_output", c.where(), mod.callee_cname(c), function=fn.cname, obj="sink")
+                        rep.violation(rid, "output call in safe.c outside the wrappers (after folding private helpers)", c.where(), mod.callee_cname(c), function=fn.cname, obj="sink")
 
         # ---- R3 ---------------------------------------------------------------------------------------------------------
         rid = rep.rule("R3", "format strings at output calls are literals of printable ASCII / LF / CR / TAB", 60)
